@@ -14,6 +14,10 @@ def has_guard(ctx: Ctx, expr_text: str, pol: bool) -> bool:
     for e, p in ctx.guards:
         if u(e) == expr_text and p == pol:
             return True
+        # the one-element-cell spelling of the same state: asked for `flag`, guarded by `flag[0]`
+        if p == pol and isinstance(e, ast.Subscript) and isinstance(e.value, ast.Name) and e.value.id == expr_text \
+                and isinstance(e.slice, ast.Constant) and e.slice.value == 0:
+            return True
         # `x is None` / `x is not None` / `x == False` forms are not truthiness guards
     return False
 
@@ -104,10 +108,20 @@ def locals_by_init(fn: Fn, pred: Callable[[ast.AST], bool]) -> List[str]:
     for n in fn.direct_nodes():
         if isinstance(n, (ast.Assign, ast.AnnAssign)) and n.value is not None:
             ts = n.targets if isinstance(n, ast.Assign) else [n.target]
+            v = n.value
+            # closure state is spelled either `x = v` (+ nonlocal) or as a one-element list cell `x = [v]`
+            hit = pred(v) or (isinstance(v, ast.List) and len(v.elts) == 1 and pred(v.elts[0]))
             for t in ts:
-                if isinstance(t, ast.Name) and pred(n.value) and t.id not in out:
+                if isinstance(t, ast.Name) and hit and t.id not in out:
                     out.append(t.id)
     return out
+
+
+def uc(e: Optional[ast.AST]) -> str:
+    """unparse with one-element-cell reads `x[0]` written as `x` (the two spellings of closure state agree)"""
+    import re as _re
+    from .astutil import u as _u
+    return _re.sub(r"\b([A-Za-z_]\w*)\[0\]", r"\1", _u(e))
 
 
 def cell_name(e: ast.AST) -> Optional[str]:
